@@ -27,7 +27,16 @@ func DeepCast(val Value, typ ast.Type, span errors.Span, allowCasts bool) (*Valu
 			}
 			return NewValueOption(innerCast), nil
 		}
-		return NewValueOption(&val), nil
+		// `null` is the empty option
+		if val.Kind() == NullValueKind {
+			return NewNoneOption(), nil
+		}
+		// A `T` becomes a `?T`: the wrapped value must itself be a `T`
+		innerCast, i := DeepCast(val, typ.(ast.OptionType).Inner, span, allowCasts)
+		if i != nil {
+			return nil, i
+		}
+		return NewValueOption(innerCast), nil
 	}
 
 	switch val.Kind() {
